@@ -60,8 +60,9 @@ if confirmed:
     sh("git -C /verif checkout -- evidence", cwd="/verif")
 dst = os.path.join("/verif/seeded", sid)
 os.makedirs(dst, exist_ok=True)
-shutil.copy(patch, os.path.join(dst, "patch.diff"))
-shutil.copy(demo, os.path.join(dst, "demo.py"))
+if os.path.abspath(src) != os.path.abspath(dst):
+    shutil.copy(patch, os.path.join(dst, "patch.diff"))
+    shutil.copy(demo, os.path.join(dst, "demo.py"))
 meta.update({"breaks_property": meta.get("property"), "confirmed": res, "confirmed_ok": confirmed, "checks_run": checks,
              "detected_by": [p for p, c in checks.items() if c["exit"] == 1 and c["violation_lines"]],
              "what_was_run": "scratch worktree: demo without/with patch, baseline suite with patch; then git -C /repo apply, ./check <prop> --tier quick, git -C /repo checkout -- ."})
